@@ -11,6 +11,7 @@ SUITES = {
     "c07": ("MC_C07", "MC_C07.cfg", "MC_C07.cfg", "C07"),
     "c12": ("MC_C12", "MC_C12.cfg", "MC_C12_thorough.cfg", "C12"),
     "c13": ("MC_C13", "MC_C13.cfg", "MC_C13_thorough.cfg", "C13"),
+    "c12t": ("MC_C12T", "MC_C12T.cfg", "MC_C12T.cfg", "C12"),
     "c12deep": ("MC_C12", "MC_C12_deep.cfg", "MC_C12_deep.cfg", "C12"),
     "c04": ("MC_C04", "MC_C04.cfg", "MC_C04_thorough.cfg", "C04"),
     "c06": ("MC_C06", "MC_C06.cfg", "MC_C06.cfg", "C06"),
